@@ -476,9 +476,9 @@ func c11SetupGen(g *hx.Gen) {
 			emit(cfg)
 		}
 		// random: 0..4 arguments of any class, blocks of 0..3 lines
-		N := 120
+		N := 400
 		if g.Thorough() {
-			N = 4000
+			N = 5000
 		}
 		for i := 0; i < N; i++ {
 			na := r.Intn(5)
